@@ -123,6 +123,11 @@ class Holder:
         return list(self.ifaces)
 
 
+class FalsyHolder(Holder):
+    def __len__(self):
+        return 0
+
+
 def one_case(ctx, seed, idx):
     r = random.Random('%s/c15/%s' % (seed, idx))
     case = {'kind': 'case', 'idx': idx}
@@ -133,10 +138,13 @@ def one_case(ctx, seed, idx):
         pairs = [gen_interface(r, 'org.verif.c15.C%d.I%d' % (idx, k)) for k in range(nif)]
         use_real = r.random() < 0.5
         if use_real:
-            cls = type('Obj%d' % idx, (O.DBusObject,), {'dbusInterfaces': [p[0] for p in pairs]})
+            attrs_ = {'dbusInterfaces': [p[0] for p in pairs]}
+            if idx % 4 == 1:
+                attrs_['__len__'] = lambda self_: 0        # an exported object that is an empty container: falsy
+            cls = type('Obj%d' % idx, (O.DBusObject,), attrs_)
             obj = cls('/obj')
         else:
-            obj = Holder([p[0] for p in pairs])
+            obj = (FalsyHolder if idx % 4 == 2 else Holder)([p[0] for p in pairs])
         exports = {'/obj': obj}
         if r.random() < 0.3:
             exports['/obj/child'] = Holder([])
